@@ -62,8 +62,18 @@ CanonPow(t) ==
             /\ ~(b.k = "Complex" /\ IsIntVal(b.a[1], 0) /\ IsIntT(e))
             /\ ~(IsNumT(b) /\ IsNumT(e) /\ (~IsExactT(b) \/ ~IsExactT(e)))
 
+\* sign-normalised argument of odd / even functions (could_extract_minus): no negative number, no
+\* product with a negative real coefficient or a complex coefficient whose real part is negative
+\* (or zero with a negative imaginary part).  Sums depend on the library's term order: left to
+\* the assertions of the constructors (hook H1).
+NegReal(t) == (t.k \in {"Int", "Rat"} /\ t.n < 0) \/ (t.k \in {"Big", "BigRat"} /\ t.n < 0) \/ (t.k = "Dbl" /\ t.s # "zero" /\ t.n < 0)
+MinusNum(t) == NegReal(t) \/ (t.k = "Complex" /\ (NegReal(t.a[1]) \/ (IsIntVal(t.a[1], 0) /\ NegReal(t.a[2]))))
+MinusArg(t) == IF t.k = "Mul" THEN MinusNum(t.a[1]) ELSE IF t.k \in {"Int", "Rat", "Complex"} THEN MinusNum(t) ELSE FALSE
+SignNormalised == {"Sinh", "Csch", "Cosh", "Sech", "Tanh", "Coth", "ASinh", "ACsch", "ATanh", "ACoth", "Erf", "Erfc", "Abs"}
+
 CanonNode(t) ==
     CASE IsNumT(t) -> CanonNumT(t)
+      [] t.k \in SignNormalised -> Len(t.a) = 1 /\ ~MinusArg(t.a[1])
       [] t.k = "Add" -> CanonAdd(t)
       [] t.k = "Mul" -> CanonMul(t)
       [] t.k = "Pow" -> CanonPow(t)
